@@ -670,6 +670,11 @@ fn run_c20(args: &Args) -> i32 {
             "fixed_offset_sweep".into(),
             json!({"offsets_checked": sweep.as_ref().ok().copied().unwrap_or(0), "range": [-93599, 93599], "exhaustive": sweep.is_ok(), "wall_s": sweep_s}),
         );
+        m.insert(
+            "static_twins".into(),
+            json!({"what": "each static zone exists as two `get!` expansions in two modules; equality between them must be by value",
+                   "at_distinct_addresses": c20::golden::static_twins_distinct()}),
+        );
     }
     let ev = evidence(
         "C20", tier, seed, &res, extra, violations, C20_RULE, C20_ASSUMPTIONS, c20_real_stub(),
